@@ -6,7 +6,8 @@
    flushing is invisible. *)
 From Coq Require Import List NArith.
 From HecsV Require Import Model.EntityBits Model.Types Model.Entities Model.World Proofs.WorldSpec
-  Proofs.WorldProofs1 Proofs.WorldProofs2 Proofs.WorldProofs3 Proofs.WorldProofs4 Proofs.WorldTheorems.
+  Proofs.WorldProofs1 Proofs.WorldProofs2 Proofs.WorldProofs3 Proofs.WorldProofs4 Proofs.WorldTheorems
+  Proofs.InterpSpec Proofs.InterpProofs.
 Import ListNotations.
 Open Scope N_scope.
 
@@ -33,6 +34,16 @@ Theorem c01_iter_nofits_refuted : ~ iter_matches_abs_nofits_stmt. Proof. exact i
 Theorem c01_despawn_total : despawn_never_panics_stmt. Proof. exact despawn_never_panics_proof. Qed.
 Theorem c01_insert_total : insert_never_panics_stmt.   Proof. exact insert_never_panics_proof. Qed.
 
+(* the script interpreter that is compared with the real code on every run (Model/WorldRun.v): for EVERY
+   script - any list of numbers, every opcode incl. containers, command buffers, guards, serde - every live
+   world it holds satisfies the invariant after every operation, as long as the id space lasts; so the
+   theorems above apply to every state the correspondence check ever compares *)
+Theorem c01_interpreter_step : interp_step_inv_wf_stmt. Proof. exact interp_step_inv_wf_proof. Qed.
+Theorem c01_interpreter : interp_run_inv_stmt.          Proof. exact interp_run_inv_proof. Qed.
+(* from an arbitrary (unreachable) interpreter state the step statement is false: a handle table holding a
+   generation-0 handle lets spawn_at write generation 0 *)
+Theorem c01_interpreter_anystate_refuted : ~ interp_step_inv_stmt. Proof. exact interp_step_inv_stmt_false. Qed.
+
 (* non-vacuity: a history through free-list reuse, an edge-cache hit and a swap-remove *)
 Example c01_nonvacuous :
   let u : universe := [{| ti_align := 4; ti_size := 4; ti_rank := 0 |}; {| ti_align := 8; ti_size := 8; ti_rank := 1 |}] in
@@ -54,3 +65,4 @@ Print Assumptions c01_remove. Print Assumptions c01_exchange. Print Assumptions 
 Print Assumptions c01_take. Print Assumptions c01_clear. Print Assumptions c01_column_batch.
 Print Assumptions c01_reachable. Print Assumptions c01_accessors. Print Assumptions c01_iter.
 Print Assumptions c01_iter_nofits_refuted. Print Assumptions c01_despawn_total. Print Assumptions c01_insert_total.
+Print Assumptions c01_interpreter_step. Print Assumptions c01_interpreter. Print Assumptions c01_interpreter_anystate_refuted.
